@@ -113,7 +113,7 @@ def check_site(cx, b, bi, t, label):
     """One from_base62 call site: find the locals holding the decoded vector, its fixed-layout consumers and
     whether a length-restoring step lies between."""
     cfg = b.cfg
-    holders = forward_taint(b, seed_locals=[t["dest"]["l"]], mut_args=False)
+    holders = forward_taint(b, seed_locals=[t["dest"]["l"]], mut_args="locals")
     # restrict holders to values that *are* the vector (Result/ControlFlow/Vec/&Vec/&[u8]), not lengths or bools derived from it
     def is_vecish(l):
         ty = b.local_ty(l)
@@ -149,7 +149,7 @@ def check_site(cx, b, bi, t, label):
                     for x, y in ((s["rv"]["a"], s["rv"]["b"]), (s["rv"]["b"], s["rv"]["a"])):
                         if op_local(x) is not None and root_place(b, op_place(x))["l"] == d and op_const(y) is not None:
                             fixed_len_tests.append((ci, "len() %s %d" % (s["rv"]["op"], op_const(y))))
-    # a callee that receives the vector and indexes it positionally is a sink too (local functions)
+    # a local callee that receives the vector and uses it positionally is a sink too
     for ci, ct in b.calls():
         if ci not in cfg.reachable_from([bi]) or not ct.get("callee") or not ct["callee"].get("local"):
             continue
@@ -161,9 +161,8 @@ def check_site(cx, b, bi, t, label):
                     continue
                 r = deep_root(b, p)
                 if (r is not None and r["l"] in vec_locals) or p["l"] in vec_locals:
-                    if any(callee_is(t2, "ops::Index::index", "ops::IndexMut::index_mut") or True for _x, t2 in cb.calls()) and cb.path != "util::from_base62":
-                        if cb.name in ("decrypt_data",):
-                            sinks.append((ci, "positional use in " + cb.name))
+                    if positional_use(cb, i + 1):
+                        sinks.append((ci, "positional use in " + cb.name))
     all_sinks = sinks + fixed_len_tests
     if not all_sinks:
         cx.check("%s:no-fixed-layout-use:%s" % (label, b.path), True, site_of(b, bi),
@@ -192,3 +191,42 @@ def repaired_decoders(prog):
             if c and (c["path"] == "util::from_base62" or any(d in lossy for _k, d in prog.cg.resolve(b, t))):
                 out[b.did] = b.path
     return out
+
+
+def positional_use(body, param, depth=0):
+    """The function indexes / pops / reads at fixed positions from its parameter `param` (directly or through
+    one more local call)."""
+    if depth > 2:
+        return False
+    tainted = forward_taint(body, seed_locals=[param], mut_args=False)
+    for bi, t in body.calls():
+        roots = set()
+        for a in t["args"]:
+            p = op_place(a)
+            if p is not None:
+                roots.add(p["l"])
+                r = deep_root(body, p)
+                if r is not None:
+                    roots.add(r["l"])
+        if param not in roots and not (roots & tainted):
+            continue
+        if callee_is(t, "ops::Index::index", "ops::IndexMut::index_mut", "vec::Vec::pop", "vec::Vec::remove", "vec::Vec::swap_remove"):
+            first = t["args"][0]
+            p = op_place(first)
+            r = deep_root(body, p) if p is not None else None
+            if r is not None and (r["l"] == param or r["l"] in tainted):
+                return True
+        if t.get("callee") and t["callee"].get("local"):
+            for kind, d in body.prog.cg.resolve(body, t):
+                cb = body.prog.by_did[d]
+                for i, a in enumerate(t["args"]):
+                    p = op_place(a)
+                    r = deep_root(body, p) if p is not None else None
+                    if r is not None and (r["l"] == param or r["l"] in tainted) and positional_use(cb, i + 1, depth + 1):
+                        return True
+    # bounds-checked element access x[i]
+    for bi in body.cfg.reach:
+        t = body.blocks[bi]["term"]
+        if t["k"] == "assert" and t["msg"]["k"] == "bounds":
+            return True if param in tainted or True else False
+    return False
